@@ -13,6 +13,7 @@ mod cases_bfv;
 mod cases_rank;
 mod cases_lenders;
 mod cases_ef;
+mod cases_rcl;
 
 pub struct Rng(pub u64);
 impl Rng {
@@ -81,6 +82,7 @@ fn dispatch(case: &str, ctx: &mut Ctx, one: Option<&str>, rng: &mut Rng, budget:
     match case {
         "bitvec_iter_ones" | "bitvec_iter_zeros" | "bitvec_ops" | "bitvec_stale" => cases_bitvec::run(case, ctx, one, rng, budget),
         "ef_seq" | "ef_dict" | "ef_builder" => cases_ef::run(case, ctx, one, rng, budget),
+        "rcl" => cases_rcl::run(case, ctx, one, rng, budget),
         "lenders" => cases_lenders::run(case, ctx, one, rng, budget),
         "rank9" | "rank_all" => cases_rank::run(case, ctx, one, rng, budget),
         "bfv_ops" | "bfv_copy" | "bfv_unaligned" | "bfv_apply" => cases_bfv::run(case, ctx, one, rng, budget),
